@@ -31,8 +31,10 @@ CLAIMED = {
     'C12': ("6/C12", "Tiling, containment, disjointness, cover, translation and estimate clauses for unbounded symbolic round counts."),
     'C13': ("6/C13", "Round counts symbolic in [0,R]: the constructor's case split is discovered by forks/enumeration, kernel arithmetic stays symbolic; per-ancilla index sets by tag vs kernel getters, per-state calibration blocks, cycle length, 0-round exception."),
     'C14': ("6/C14", "Dresser executed on fakestim with symbolic T1/T2/assignment errors/durations and exp as an uninterpreted function: strip clause, ranges, sum <= 1, per-qubit assignment error, idle channel of every TICK-delimited block vs the T1/T2 formula at half the longest documented duration."),
+    'C15': ("6/C15", "Class B: exporter executed on a recording platform (execution order of kernels, duplicate kernel names modelled), compared with an independent translation of the program; wait durations symbolic integers; the twin builds the real ql.Program."),
     'C16': ("6/C16", "Class B (finite): tables of the real predicates are read on every run and z3 decides the equivalence with the statement's predicate for all subsets of <= 4 edges x idle qubits at once; the composition lemma and the generator are executed on the real code within the stated bounds."),
     'C17': ("6/C17", "Class B (finite): shipped tables are read into z3 lookup tables and each clause is a solver witness query over layer/gate/qubit indices; derived and composite descriptions are executed on bounded families of involved-qubit subsets."),
+    'C18': ("6/C18", "plot_circuit executed with the renderer replaced by construction of all draw components: pivots vs the schedule of a fresh identical circuit under the drawing's durations, rows, width, and non-mutation (retained objects and fresh listing) for all outer global durations; the twin renders with matplotlib."),
     'C19': ("6/C19", "Match/identity relations for unbounded symbolic ids and names; edge hash with uninterpreted hash functions; de-duplication on symbolic sequences."),
 }
 
